@@ -69,6 +69,13 @@ def step (_ : Unit) (op impl : String) : Unit × DrvOut :=
   let out (m : String) : Unit × DrvOut := ((), { model := m, spec := verdict impl })
   match words op with
   | ["reset"] => ((), { model := "ok" })
+  | "http" :: _ =>
+    -- raw request over a real loopback connection through the real httpp.Server chain: the answer is
+    -- decided by net/http + gin (not modelled); the property is that the process survives
+    ((), { model := "-", spec := verdict impl })
+  | "mq" :: _ =>
+    -- MoQ session history on an in-memory connection (stream fragments interleaved): spec only
+    ((), { model := "-", spec := verdict impl })
   | ["srt", raw] =>
     match Hex.decode raw with
     | some raw =>
